@@ -2,8 +2,8 @@ CONSTANTS
   HW = 8192
   Sizes = {1, 1023, 1024, 1025, 8191, 8192, 8193}
   MaxItems = 3
-  MaxDepth = 5
-  MaxWrites = 3
+  MaxDepth = 6
+  MaxWrites = 2
   PartialMode = 2
   CloseFlushesBuffer = TRUE
   ReadyThresholdLe = FALSE
